@@ -167,4 +167,11 @@ example : Documented Gen.safeKeys
     [108,102,115,46,99,117,115,116,111,109,116,114,97,110,115,102,101,114,46,120,46,112,97,116,104,46,97,99,99,101,115,115] := by
   right; left; decide
 
+/-- … also when Git's value is the EMPTY string — the way a user cancels a setting the repository
+    supplies: the lookup returns it, not an earlier non-empty value -/
+theorem git_config_empty_value_wins (lfsconfig gitconfig : Source) (key : Bytes)
+    (h : Cfg.get (readSource Gen.safeKeys {} gitconfig) key = some []) :
+    Cfg.get (readGitConfig Gen.safeKeys [lfsconfig, gitconfig]) key = some [] :=
+  git_config_wins lfsconfig gitconfig key [] h
+
 end C11
